@@ -447,4 +447,19 @@ theorem C16_native_mint :
     genericMint NATIVE_MINT_ACCOUNT_DATA TOKEN_2022_ID = .ok (some ⟨0, 9⟩) ∧
     NATIVE_MINT_ID.length = 32 := by decide
 
+/-- **Length frame for the reference codecs.**  On a buffer of 357 bytes or more the SPL Token
+    `Pack` codecs and Token-2022's `StateWithExtensions::unpack` (as modelled) return what they
+    return on the buffer's first 166 bytes followed by 191 zeros; together with `C17_length_frame`
+    the agreement theorems above are evaluated on 10 MiB and 4 GiB buffers through their heads
+    (`tokrefbig` cases). -/
+theorem C16_length_frame (d : Bytes) (h : 357 ≤ d.length) :
+    unpackAccount d = unpackAccount (TokenFrame.compress d) ∧
+    unpackMint d = unpackMint (TokenFrame.compress d) ∧
+    t22UnpackAccount d = t22UnpackAccount (TokenFrame.compress d) ∧
+    t22UnpackMint d = t22UnpackMint (TokenFrame.compress d) := by
+  obtain ⟨hH, hT, e⟩ := TokenFrame.split d h
+  have := TokenFrame.ref_app hH hT TokenFrame.zeros_len
+  rw [← e] at this
+  exact this
+
 end C16
